@@ -366,6 +366,40 @@ def direct(rng, tier, focus=()):
             except Exception as e:
                 failures.append({'kind': 'unbalanced-group-other-error', 'ctx': ctx, 'exc': repr(e)[:100]})
             nontriv.add(('grp', repr(lst)))
+    # several top-level items: get_context must find the first item carrying the context number,
+    # judged by an independent structural reference (items are built, not parsed)
+    def build_item(depth):
+        r = rng.random()
+        if r < 0.25:
+            return [(0, 2, 1, bytes([rng.randrange(256)]))]
+        if r < 0.5:
+            return [(1, rng.randrange(4), 1, b'\x05')]
+        c = rng.randrange(4)
+        body = []
+        if depth < 3:
+            for _ in range(rng.randrange(0, 3)):
+                body += build_item(depth + 1)
+        return [(2, c, 0, b'')] + body + [(3, c, 0, b'')]
+    for _ in range(4000 if tier == 'thorough' else 1200):
+        n += 1
+        items = [build_item(0) for _ in range(rng.randrange(1, 5))]
+        flat = [t for it in items for t in it]
+        for ctx in range(4):
+            want = None
+            for it in items:
+                if it[0][0] == 1 and it[0][1] == ctx:
+                    want = ('tag', canon_tag(mk(*it[0]))); break
+                if it[0][0] == 2 and it[0][1] == ctx:
+                    want = ('group', canon_tags([mk(*t) for t in it[1:-1]])); break
+            try:
+                r = TagList([mk(*t) for t in flat]).get_context(ctx)
+                got = None if r is None else (('tag', canon_tag(r)) if isinstance(r, Tag) else ('group', canon_tags(r.tagList)))
+            except Exception as e:
+                got = ('exception', repr(e)[:100])
+            if got != want:
+                failures.append({'kind': 'get-context-wrong-group', 'ctx': ctx, 'tags': repr(flat)[:600],
+                                 'got': repr(got)[:200], 'want': repr(want)[:200]})
+        nontriv.add(('multi', repr(flat)))
     return failures, {'evaluations': n, 'distinct_nontrivial': len(nontriv), 'exhaustive': True,
                       'exhaustive_domain': 'all octet strings of length 2 (decode totality, re-encode stability)',
                       'samples': samples}
